@@ -566,3 +566,71 @@ def rule_rt4(prog: Program, report: Report) -> None:
                 continue
             report.violate("RT4", fn, a, f"`{src(a)[:50]}` of type int | None tested by truthiness", f"`{src(a)[:50]}` may be the integer 0 (position 0, index 0, depth 0), which the test treats like None (absent / deleted); compare with None instead", what="Optional[int] values are compared with None")
     report.count("RT4 truthiness tests of Optional[int] values", n)
+
+
+# ---------------------------------------------------------------------------- RX-add
+def rule_rx_added_exit(prog: Program, report: Report, pid: str) -> None:
+    """An early exit was *added* to an anchored function: every statement and every test of the
+    reviewed function is still there, word for word, and there is an additional `return` / `break` /
+    `continue` / `raise`.  Nothing was removed or re-shaped, so this is not a restructuring of the
+    reviewed code: the function now stops in cases where the reviewed code went on (a fast path, a
+    shortcut for a "trivial" case, an extra refusal).  A refactoring that introduces a guard clause
+    also removes or rewrites what the guard replaces and is not matched."""
+    import json
+    import os
+    from collections import Counter
+
+    from ..gates import _REVIEWED, _reviewed, view
+
+    report.rules.append("RX-add")
+    here = os.path.dirname(os.path.abspath(__file__))
+    fn2 = json.load(open(os.path.join(here, "fn2props.json")))
+    # every function of a file the property's anchors name, plus the functions the tables anchor
+    files: set[str] = set()
+    for line in open(os.path.join(os.path.dirname(os.path.dirname(here)), "properties.jsonl"), encoding="utf-8"):
+        pr = json.loads(line)
+        if pr["id"] == pid:
+            files = set(pr.get("anchors", {}).get("files", []))
+    keys = {k for k, props in fn2.items() if pid in props} | {k for k, f in prog.funcs.items() if f.module.rel in files}
+    n = 0
+    for key in sorted(keys):
+        if not prog.has_func(key):
+            continue
+        v = view(prog, key)
+        rv = _reviewed(v)
+        if rv is None or "stmts" not in rv:
+            continue
+        n += 1
+        fn = v.fn
+        stmts = [st for st in walk_own(fn.node) if isinstance(st, (ast.Assign, ast.AnnAssign, ast.AugAssign, ast.Expr, ast.Return, ast.Raise, ast.Break, ast.Continue, ast.Delete, ast.Assert)) and not (isinstance(st, ast.Expr) and isinstance(st.value, ast.Constant))]
+        now = Counter(" ".join(src(st).split()) for st in stmts)
+        tests_now = Counter([" ".join(src(st.test).split()) for st in walk_own(fn.node) if isinstance(st, (ast.If, ast.While))] + ["for " + " ".join(src(st.target).split()) + " in " + " ".join(src(st.iter).split()) for st in walk_own(fn.node) if isinstance(st, ast.For)])
+        old, tests_old = Counter(rv["stmts"]), Counter(rv["tests"])
+        if old - now or tests_old - tests_now:
+            report.ob("RX-add", key, "the function differs from the reviewed one by more than additions (judged by the other rules)", nontrivial=False)
+            continue
+        extra = now - old
+        from ..norm import shape_of
+
+        if "shape" in rv and shape_of(fn.node) == rv["shape"]:
+            # the control skeleton is the reviewed one up to exits that change nothing (a bare `return` /
+            # `continue` where control would fall off the end of the function / iteration anyway)
+            report.ob("RX-add", key, "no exit that changes the control skeleton was added")
+            continue
+        new_exits = [st for st in stmts if isinstance(st, (ast.Return, ast.Break, ast.Continue, ast.Raise)) and extra.get(" ".join(src(st).split()), 0) > 0]
+        # attribute each surplus text to its last occurrences (the reviewed ones come first is not knowable: report all of that text once)
+        seen: set[str] = set()
+        flagged = False
+        for st in new_exits:
+            t = " ".join(src(st).split())
+            if t in seen:
+                continue
+            seen.add(t)
+            if isinstance(st, ast.Raise):
+                continue  # an added refusal by exception is a stricter precondition, judged by RQ where it matters
+            guards = sorted(v.guards(st, resolve=False))
+            report.violate("RX-add", fn, st, f"added early exit `{t[:60]}`", f"every statement and test of the reviewed {fn.qual} is unchanged, and `{t[:60]}` was added under {guards[:4]}: the function now stops there in cases where the reviewed code went on (nothing was removed, so this is not a restructuring)", what="no exit is added to an otherwise unchanged anchored function")
+            flagged = True
+        if not flagged:
+            report.ob("RX-add", key, "no exit was added to the reviewed statements")
+    report.count("RX-add anchored functions compared with their reviewed statements", n)
